@@ -14,7 +14,10 @@ _REGISTRY = {
     'C09': ('vt.checks.e2e_checks', 'C09'),
     'C10': ('vt.checks.e2e_checks', 'C10'),
     'C11': ('vt.checks.e2e_checks', 'C11'),
+    'C12': ('vt.checks.unit_checks', 'C12'),
+    'C14': ('vt.checks.unit_checks', 'C14'),
     'C16': ('vt.checks.unit_checks', 'C16'),
+    'C17': ('vt.checks.unit_checks', 'C17'),
     'C18': ('vt.checks.e2e_checks', 'C18'),
 }
 
